@@ -272,3 +272,125 @@ Lemma good_adj d s delta : good d -> In s (map fst d) -> (0 <= get0 d s + delta)
 Proof.
   intros [H1 H2] Hs Hge. split; [rewrite adj_keys; exact H1|apply nonneg_adj; try assumption; apply has_In, Hs].
 Qed.
+
+(* ---------------------------------------------------------------- a step on a level state *)
+Definition level_at (S : state) (thr : Q) : Prop := forall c d, In (c, d) S -> (med_of d == thr)%Q.
+
+Lemma eqv_of_Qeq a b : (a == b)%Q -> eqv Qle_bool a b = true.
+Proof. intros H. unfold eqv. apply andb_true_iff. split; apply Qle_bool_iff; rewrite H; apply Qle_refl. Qed.
+
+Lemma cmem_true c l : In c l -> cmem c l = true.
+Proof. intros H. apply MJ_proofs.cmem_In. exact H. Qed.
+
+Lemma mj_level_all (S : state) : mj_level S (map fst S) = S.
+Proof.
+  unfold mj_level. apply filter_all. apply Forall_forall. intros x Hx. apply cmem_true. apply in_map. exact Hx.
+Qed.
+
+Lemma filter_true {X} (l : list X) : filter (fun _ => true) l = l.
+Proof. induction l as [|x l IH]; [reflexivity|]. cbn [filter]. rewrite IH. reflexivity. Qed.
+
+Lemma tied_of_repeat L n : (1 <= n)%nat -> tied_of (repeat (TieR L) n) = L.
+Proof. destruct n; [lia|reflexivity]. Qed.
+
+Lemma repeat_tie_counts (L : list C) n : count_tie (repeat (TieR L) n) = n /\ untied_of (repeat (TieR L) n) = 0%nat.
+Proof.
+  pose proof (count_tie_shape [] n L) as H1. pose proof (untied_shape [] n L) as H2. cbn [map app length] in H1, H2. auto.
+Qed.
+
+Lemma NOOP S T thr n r : Inv S T -> (0 < T)%Z -> level_at S thr -> (1 <= n < length S)%nat ->
+  MJ (own_remove S 1) n r -> MJ S n r.
+Proof.
+  intros HI HT Hl Hn H. set (meds := map (fun cd : C * cscores => (fst cd, med_of (snd cd))) S).
+  assert (Hm : (mx S <=? 0)%Z = false).
+  { apply (mx_pos S T HI ltac:(lia)). split; [destruct S; [simpl in Hn; lia|discriminate]|exact HT]. }
+  assert (Ha : aggregate FMedianLow S = inl meds) by (apply (aggregate_Inv S T HI HT)).
+  assert (Hb : gnb meds n = repeat (TieR (map fst S)) n).
+  { replace (map fst S) with (map fst meds) by (unfold meds; rewrite map_map; reflexivity).
+    apply (gnb_all_eq meds thr); [|unfold meds; rewrite map_length; exact Hn].
+    apply Forall_forall. intros [c v] Hin. unfold meds in Hin. apply in_map_iff in Hin. destruct Hin as ([c0 d] & E & Hin).
+    cbn [fst snd] in E. injection E as -> <-. cbn [snd]. apply eqv_of_Qeq. exact (Hl c d Hin). }
+  destruct (repeat_tie_counts (map fst S) n) as [Hc Hu].
+  apply (MJ_tie S n meds r Hm Ha).
+  - rewrite Hb, Hc. apply Nat.eqb_neq. lia.
+  - rewrite Hb, Hu. reflexivity.
+  - rewrite Hb, tied_of_repeat by lia. unfold mj_level.
+    rewrite (mj_remove_own S T _ 1 HI HT). fold (mj_level S (map fst S)). rewrite mj_level_all. exact H.
+Qed.
+
+(* ---------------------------------------------------------------- the block of removals of mj_default *)
+Lemma fold_filter_sumf (f : Q -> bool) (d : cscores) :
+  fold_left Z.add (map snd (filter (fun sn : Q * Z => f (fst sn)) d)) 0%Z = sumf f d.
+Proof.
+  induction d as [|[s n] d IH]; [reflexivity|]. cbn [filter fst sumf fold_right snd]. fold (sumf f d).
+  destruct (f s); [|exact IH]. cbn [map fold_left snd]. rewrite fold_add_shiftZ, IH. lia.
+Qed.
+
+Lemma sumf_compl (f : Q -> bool) d : (sumf f d + sumf (fun s => negb (f s)) d = cs_total d)%Z.
+Proof.
+  rewrite cs_total_sumf. induction d as [|[s n] d IH]; [reflexivity|]. cbn [sumf fold_right fst snd].
+  fold (sumf f d). fold (sumf (fun s => negb (f s)) d). fold (sumf (fun _ => true) d). destruct (f s); cbn [negb]; lia.
+Qed.
+
+Lemma lower_eq d m : sumf (fun s => Qle_bool m s) d = (cs_total d - below d m)%Z.
+Proof. pose proof (sumf_compl (fun s => Qle_bool m s) d) as H. cbv beta in H. unfold below, qlt. lia. Qed.
+
+Lemma upper_eq d m : sumf (fun s => negb (Qle_bool s m)) d = (cs_total d - atmost d m)%Z.
+Proof. pose proof (sumf_compl (fun s => Qle_bool s m) d) as H. cbv beta in H. unfold atmost. lia. Qed.
+
+Lemma ceil_half_bound (a l t : Z) : (inject_Z (a - 1) < inject_Z l - inject_Z t / 2)%Q -> (2 * a <= 2 * l - t + 1)%Z.
+Proof.
+  intros H. assert (H' : (inject_Z (2 * (a - 1)) < inject_Z (2 * l - t))%Q).
+  { unfold Z.sub in *. rewrite !inject_Z_plus, !inject_Z_mult, !inject_Z_opp, ?inject_Z_plus.
+    unfold Qdiv in H. change (/ 2)%Q with (1 # 2)%Q in H. rewrite inject_Z_plus, inject_Z_opp in H.
+    change (inject_Z 2) with 2%Q. change (inject_Z 1) with 1%Q in *. change (inject_Z (- (1))) with (- (1))%Q. lra. }
+  rewrite <- Zlt_Qlt in H'. lia.
+Qed.
+
+Lemma fold_min_le (l : list Z) : forall x, (fold_left Z.min l x <= x)%Z /\ forall y, In y l -> (fold_left Z.min l x <= y)%Z.
+Proof.
+  induction l as [|z l IH]; intros x; cbn [fold_left]; [split; [lia|intros y []]|].
+  destruct (IH (Z.min x z)) as [H1 H2]. split; [lia|]. intros y [<-|Hy]; [lia|apply H2, Hy].
+Qed.
+
+(* the number removed in one block, against one level candidate whose median is m *)
+Lemma ch_bound (sub : state) (medians : list (C * Q)) c d T :
+  In (c, d) sub -> cs_total d = T -> is_med d (dget_or medians c 0%Q) ->
+  let m := dget_or medians c 0%Q in
+  let ch := mj_ch sub medians in
+  (1 <= ch)%Z /\ (ch = 1%Z \/ ((2 * ch <= T - 2 * below d m + 1)%Z /\ (2 * ch <= 2 * atmost d m - T + 1)%Z)).
+Proof.
+  intros Hin Ht [M1 M2] m ch. split; [apply mj_ch_pos|]. unfold ch, mj_ch. cbv zeta.
+  destruct (closest_change sub medians =? 0)%Z eqn:Ez; [left; reflexivity|right]. apply Z.eqb_neq in Ez.
+  set (per := fun cd : C * cscores =>
+         let m := dget_or medians (fst cd) 0%Q in
+         let half := (inject_Z (cs_total (snd cd)) / 2)%Q in
+         let lower := inject_Z (fold_left Z.add (map snd (filter (fun sn : Q * Z => Qle_bool m (fst sn)) (snd cd))) 0%Z) in
+         let upper := inject_Z (fold_left Z.add (map snd (filter (fun sn : Q * Z => negb (Qle_bool (fst sn) m)) (snd cd))) 0%Z) in
+         Z.min (Qceiling (Qabs (lower - half))) (Qceiling (Qabs (upper - half)))).
+  assert (Hle : (closest_change sub medians <= per (c, d))%Z).
+  { unfold closest_change. fold per. destruct sub as [|x sub']; [destruct Hin|]. cbn [map].
+    destruct (fold_min_le (map per sub') (per x)) as [H1 H2]. destruct Hin as [->|Hin]; [exact H1|].
+    apply H2. apply in_map. exact Hin. }
+  unfold per in Hle. cbv zeta in Hle. cbn [fst snd] in Hle. fold m in Hle.
+  rewrite (fold_filter_sumf (fun s => Qle_bool m s)), (fold_filter_sumf (fun s => negb (Qle_bool s m))) in Hle.
+  rewrite lower_eq, upper_eq, Ht in Hle. fold m in M1, M2. rewrite Ht in M1, M2.
+  set (A := Qceiling (Qabs (inject_Z (T - below d m) - inject_Z T / 2))) in *.
+  set (B := Qceiling (Qabs (inject_Z (T - atmost d m) - inject_Z T / 2))) in *.
+  assert (HA : (2 * A <= 2 * (T - below d m) - T + 1)%Z).
+  { apply ceil_half_bound. unfold A.
+    assert (Hp : (0 <= inject_Z (T - below d m) - inject_Z T / 2)%Q).
+    { assert (Hz : (inject_Z T <= inject_Z (2 * (T - below d m)))%Q) by (rewrite <- Zle_Qle; lia).
+      rewrite inject_Z_mult in Hz. change (inject_Z 2) with 2%Q in Hz. unfold Qdiv. change (/ 2)%Q with (1 # 2)%Q. lra. }
+    rewrite (Qceiling_comp _ _ (Qabs_pos _ Hp)). apply Qceiling_lt. }
+  assert (HB : (2 * B <= 2 * atmost d m - T + 1)%Z).
+  { assert (Hp : (inject_Z (T - atmost d m) - inject_Z T / 2 <= 0)%Q).
+    { assert (Hz : (inject_Z (2 * (T - atmost d m)) <= inject_Z T)%Q) by (rewrite <- Zle_Qle; lia).
+      rewrite inject_Z_mult in Hz. change (inject_Z 2) with 2%Q in Hz. unfold Qdiv. change (/ 2)%Q with (1 # 2)%Q. lra. }
+    assert (E : (- (inject_Z (T - atmost d m) - inject_Z T / 2) == inject_Z (atmost d m) - inject_Z T / 2)%Q).
+    { unfold Zminus. rewrite inject_Z_plus, inject_Z_opp. unfold Qdiv. change (/ 2)%Q with (1 # 2)%Q.
+      assert (E2 : (inject_Z T == 2 * (inject_Z T * (1 # 2)))%Q) by ring. lra. }
+    unfold B. rewrite (Qceiling_comp _ _ (Qabs_neg _ Hp)), (Qceiling_comp _ _ E).
+    pose proof (ceil_half_bound (Qceiling (inject_Z (atmost d m) - inject_Z T / 2)) (atmost d m) T (Qceiling_lt _)). lia. }
+  lia.
+Qed.
